@@ -31,6 +31,14 @@ removal of an instance from the cell goes through the one overridable
 funnel (Loader.remove_app), and /finished is written before /scheduled is
 deleted.  C09.6 (thorough tier, whole package): instance placement records
 are written or deleted only by the scheduler master/loader.
+Added by the seeding rounds - C09.1 the start-up create set is model - stored
+plus model & changed and the delete pass covers the stored root listing; C09.2
+every write of an instance record stores _placement_data(instance) (one named
+read-modify-write exception); C09.3 the publication loops range over exactly
+the tuples whose server or expiry changed, however that list is built; C09.4
+reload_server restores a replaced server's recorded placement unless a
+snapshot taken before the removal says it held nothing; C09.5 instances leave
+the cell only through Loader.remove_app.
 Does NOT decide equality of the whole stored tree with the whole model over
 histories of ZooKeeper events.
 """
